@@ -31,7 +31,29 @@ def explore(cfg, build, emit=True, timeout=1200, workers=8):
             if line.startswith('<<"EDGE", '):
                 edges.append(json.loads(json.loads(line[len('<<"EDGE", '):-2])))
     shutil.rmtree(wd, ignore_errors=True)
+    if emit:
+        assert_not_vacuous(edges)
     return states, trans, edges, out
+
+
+def action_counts(edges):
+    """per action name: number of distinct transitions, split by how the call ended (vacuity evidence)"""
+    c = collections.Counter()
+    for e in edges:
+        a = e['act']
+        kind = 'fatal' if 'FATAL' in a.get('o', {}).get('tags', []) else ('complains' if set(a.get('o', {}).get('tags', [])) & {'ERROR', 'SERROR'} else 'ok')
+        c['%s:%s' % (a['name'], kind)] += 1
+    return dict(sorted(c.items()))
+
+
+ALL_ACTIONS = ['init', 'select', 'list', 'printid', 'name', 'dim', 'setp', 'getp', 'initp', 'purge', 'sanity', 'setv', 'getv', 'dispp', 'dispv', 'eval']
+
+
+def assert_not_vacuous(edges):
+    names = set(e['act']['name'] for e in edges)
+    missing = [a for a in ALL_ACTIONS if a not in names]
+    if missing:
+        raise InfraError('bounded model never takes action(s) %s: the specification or its instance is vacuous' % missing)
 
 
 def canon(x):
